@@ -142,6 +142,27 @@ Definition append_class (c : case) : N :=
   | _ => 0%N
   end.
 
+(* unify: a selector pseudo of one operand is a strict superselector of a same-named pseudo of the other
+   (`:not(.a)` / `:not(.a, .b)`): combine_vital keeps the more general one *)
+Fixpoint comps_of (s : sel) : list compound :=
+  match s with
+  | Sel None c => [c]
+  | Sel (Some (_, r)) c => c :: comps_of r
+  end.
+Definition comparable_pseudos (a b : compound) : bool :=
+  existsb (fun p => match p_arg p with
+                    | ArgSel _ => existsb (fun q => (sup_pseudo p q || sup_pseudo q p) && negb (pseudo_eqb p q)) (c_ps b)
+                    | _ => false
+                    end) (c_ps a).
+Definition unify_class (c : case) : N :=
+  match c_kind c with
+  | 2%N =>
+      if existsb (fun x => existsb (fun y =>
+           existsb (fun ca => existsb (comparable_pseudos ca) (comps_of y)) (comps_of x)) (c_b c)) (c_a c)
+      then 2%N else 0%N
+  | _ => 0%N
+  end.
+
 Definition b2z (b : bool) : Z := if b then 1%Z else 0%Z.
 Definition run (c : case) : list Z :=
-  [corr c; b2z (clause c); Z.of_N (append_class c); Z.of_N (c_kind c); Z.of_N (c_st1 c)].
+  [corr c; b2z (clause c); Z.of_N (N.max (append_class c) (unify_class c)); Z.of_N (c_kind c); Z.of_N (c_st1 c)].
